@@ -623,6 +623,7 @@ type Upd struct {
 	Delete          bool           // UpdateFunc only: return nil
 	BadExp          bool           // set _expiresAt to a non-time
 	SpellingOfOwnID bool           // set _id to the other letter case of the document's own id
+	DeleteSome      bool           // UpdateFunc only: return nil (delete) for the documents whose id bytes sum to an even number, rewrite the others
 	NilMap          bool           // Update(map) only: hand over a nil map (no change at all)
 	Raw             map[string]any // optional: for a path of Set, the same value as non-canonical Go types (handed to clover instead)
 }
@@ -662,8 +663,20 @@ func (u *Upd) String() string {
 }
 
 // applyModel returns the updated copy of a model document (nil = delete).
+// dropsID decides, from the id alone, which documents a DeleteSome updater removes.
+func dropsID(id string) bool {
+	h := 0
+	for i := 0; i < len(id); i++ {
+		h += int(id[i])
+	}
+	return h%2 == 0
+}
+
 func (u *Upd) applyModel(d map[string]any) map[string]any {
 	if u.Delete {
+		return nil
+	}
+	if id, _ := d["_id"].(string); u.DeleteSome && dropsID(id) {
 		return nil
 	}
 	n := model.CopyDoc(d)
@@ -691,7 +704,7 @@ type updCall struct {
 func (u *Upd) callback(calls *[]updCall) func(*document.Document) *document.Document {
 	return func(doc *document.Document) *document.Document {
 		*calls = append(*calls, updCall{ID: doc.ObjectId(), Arg: model.FromDoc(doc)})
-		if u.Delete {
+		if u.Delete || (u.DeleteSome && dropsID(doc.ObjectId())) {
 			return nil
 		}
 		t := doc
